@@ -340,6 +340,11 @@ func (dec *xmlDecoder) decodeXML(root *xmlNode) error {
 		started = true
 	}
 
+	if elem != nil && elem.parent != nil {
+		// the input ended inside an element: what was read so far is not the document
+		return fmt.Errorf("invalid XML: the input ends before <%v> is closed", elem.label)
+	}
+
 	return nil
 }
 
